@@ -14,7 +14,8 @@ DEFAULT_MACROS = [("log", "info"), ("log", "warn"), ("log", "error")]
 
 FEATURES = {
     "path": ["bare", "qual"],
-    "target": ["none", "plain", "spacey", "colons", "punct"],
+    "macro": [0, 1, 2, 3, 4],          # index into the configured macro set (modulo its length)
+    "target": ["none", "plain", "spacey", "colons", "punct", "slashes", "blockopen", "escq"],
     "nkv": [0, 1, 2, 3],
     "kv0": ["ident", "field", "uint", "float", "bool", "str", "str_semi", "str_comma", "str_escq",
             "mod_q", "mod_debug", "mod_pct", "mod_display", "mod_err", "mod_sval", "mod_serde",
@@ -26,15 +27,14 @@ FEATURES = {
     "trail": ["none", "pos1", "pos2", "named", "str"],
     "lay": ["tight", "space", "nl", "blockc", "linec", "tabs"],
     "pre": ["bol", "indent", "brace", "semi", "arrow", "closure", "call", "stmt", "strlit", "charlit", "eq",
-            "uni_indent"],
+            "uni_indent", "kw_return", "kw_break", "ident_comment"],
     "post": ["semi", "paren", "comma", "brace", "eof"],
     "ref": ["none", "valid", "nearmiss"],
 }
 # values that an *open* finding names as a cross-statement hazard or that currently fail: generated only
 # in dedicated small files (DESIGN 6 "Cascades").
 HAZARD = {
-    "pre": ["kw_return", "kw_break", "ident_comment", "str_slashes", "str_blockopen"],
-    "target": ["slashes", "blockopen", "escq"],
+    "pre": ["str_slashes", "str_blockopen"],
     "trail": ["str_slashes"],
 }
 
@@ -243,7 +243,11 @@ def post_text(cls, rnd, eol):
 
 DECOY_CLASSES = ["line_comment", "block_comment", "doc_comment", "inner_doc", "block_multi", "unconfigured",
                  "prefix_name", "suffix_name", "other_path", "no_literal", "no_literal_ident", "in_string_escq",
-                 "not_macro_call", "ident_only", "method_like", "nested_block"]
+                 "not_macro_call", "ident_only", "method_like", "nested_block",
+                 # near-misses of the configured (module, name) pairs
+                 "module_name_concat", "module_underscore_name", "name_module_swapped", "module_twice", "case_variant",
+                 "name_trailing_underscore", "name_leading_underscore", "module_suffix_only", "name_of_one_module_of_other",
+                 "deeper_path"]
 
 
 def decoy_text(cls, marker, rnd, macros, eol):
@@ -256,6 +260,35 @@ def decoy_text(cls, marker, rnd, macros, eol):
     while sfx in names:
         sfx = "x" + sfx
     uncfg = rnd.choice([n for n in ["debug", "trace", "println", "format", "panic", "log", "tracing_info"] if n not in names])
+    # a (module, name) combination that is NOT configured although both parts are (needs >= 2 entries)
+    cross = None
+    for m2, n2 in macros:
+        for m3, n3 in macros:
+            if (m2, n3) not in macros and n3 not in [n for m, n in macros if m == m2]:
+                cross = (m2, n3)
+    cv = name.upper() if name.upper() != name else name.capitalize()
+    if cv in names:
+        cv = name.upper() + "X"
+    extra = {
+        "module_name_concat": '%s%s!("%s module and name glued");' % (mod, name, marker),
+        "module_underscore_name": '%s_%s!("%s module_name");' % (mod, name, marker),
+        "name_module_swapped": '%s::%s!("%s swapped");' % (name, mod, marker),
+        "module_twice": '%s::%s::%s!("%s module twice");' % (mod, mod, name, marker),
+        "case_variant": '%s!("%s other letter case"); %s::%s!("%s other case module");' % (cv, marker, mod.upper() if mod.upper() != mod else mod + "X", name, marker),
+        "name_trailing_underscore": '%s_!("%s trailing underscore");' % (name, marker),
+        "name_leading_underscore": '_%s!("%s leading underscore");' % (name, marker),
+        "module_suffix_only": '%s::%s!("%s suffix of module");' % ((mod[1:] or "m") if (mod[1:] or "m") != mod else "zz", name, marker),
+        "name_of_one_module_of_other": ('%s::%s!("%s unconfigured pairing");' % (cross[0], cross[1], marker)) if cross
+                                       else ('zz%s::%s!("%s unconfigured pairing");' % (mod, name, marker)),
+        "deeper_path": 'crate::util::%s::%s!("%s deeper path");' % (mod, name, marker),
+    }
+    for k in list(extra):
+        # a near-miss that happens to coincide with a configured macro is not a decoy: neutralise it
+        head = extra[k].split("!(")[0]
+        if head in names or any(head == "%s::%s" % mn for mn in macros):
+            extra[k] = '// %s coincides with a configured macro in this set' % marker
+    if cls in extra:
+        return extra[cls]
     return {
         "line_comment": '// %s!("%s in comment")' % (name, marker),
         "block_comment": '/* %s::%s!("%s in block") */' % (mod, name, marker),
@@ -332,7 +365,7 @@ def random_feat(rnd, hazards=False, structured=False):
     return f
 
 
-NEUTRAL = {"path": "bare", "target": "none", "nkv": 0, "kv0": "ident", "kv1": "ident", "kv2": "field", "msg": "plain", "trail": "none",
+NEUTRAL = {"macro": 0, "path": "bare", "target": "none", "nkv": 0, "kv0": "ident", "kv1": "ident", "kv2": "field", "msg": "plain", "trail": "none",
            "lay": "tight", "pre": "indent", "post": "semi", "ref": "none"}
 
 
